@@ -1,0 +1,14 @@
+//go:build verif
+
+package boltz
+
+// SimHook is the deterministic-simulation seam around DbImpl.reloadLock. It is only compiled with the
+// "verif" build tag and is nil by default. The simulator uses it to model the lock (so that no goroutine
+// ever blocks on it for real) and to evaluate invariants at the acquisition points.
+var SimHook func(point string, db *DbImpl)
+
+func simPoint(point string, db *DbImpl) {
+	if h := SimHook; h != nil {
+		h(point, db)
+	}
+}
